@@ -101,7 +101,37 @@ def run(tier, seed):
         good_key = cbor2.dumps({1: 2, 3: -7, -1: 1, -2: bytes(32), -3: bytes(32)})
         hdr_both = rng.randbytes(32) + b"\xc1" + b"\x00\x00\x00\x01" + rng.randbytes(16) + b"\x00\x02" + b"id" + good_key
         for b in (hdr_at + item, hdr_ed + item, hdr_both + item):
-            run_one(b, "hostile-cbor")
+            il = run_one(b, "hostile-cbor")
+            try:
+                canonical = cbor2.dumps(cbor2.loads(item)) == item      # (observation O1: the parser measures an item by re-encoding it; C11 quantifies over canonically encoded CBOR)
+            except Exception:
+                canonical = False
+            # whatever such an item decodes to, bytes after it are leftover bytes
+            for sfx in (b"\x00", b"\xff\xff"):
+                run_one(b + sfx, "hostile-cbor-suffix", "reject" if il.startswith("OK") and canonical else None)      # (a truncated item may be completed by the suffix)
+    # the byte string may arrive as a view into a larger buffer (a window of the attestation object, of a network buffer): the result is that of the bytes it covers
+    for i in range(40 if quick else 400):
+        b, exp = cborgen.layout(rng)
+        ref = impl.parse_authenticator_data(b)
+        pre, post = rng.randbytes(rng.choice([1, 2, 37, 55])), rng.randbytes(rng.choice([0, 1, 3, 40]))
+        big = pre + b + post
+        forms = {"window of bytes": memoryview(big)[len(pre):len(pre) + len(b)], "window of bytearray": memoryview(bytearray(big))[len(pre):len(pre) + len(b)],
+                 "prefix window of bytes": memoryview(b + post + b"\x00")[:len(b)], "suffix window of bytes": memoryview(pre + b)[len(pre):],
+                 "bytearray": bytearray(b), "full view": memoryview(b)}
+        for k, v in forms.items():
+            got = impl.parse_authenticator_data(v)
+            chk.evals += 1
+            if got != ref:
+                chk.violation(f"authenticator data given as a {k} is parsed differently from the bytes it covers", f"authdata-view {k}",
+                              {"entry": "parse_authenticator_data", "form": k, "bytes_hex": b.hex(), "buffer_hex": big.hex(), "offset": len(pre), "as_bytes": ref[:160], "as_view": got[:160]})
+        # ... and a truncated window is truncated data
+        if len(b) > 40:
+            t = rng.randrange(37, len(b))
+            got, want = impl.parse_authenticator_data(memoryview(b)[:t]), impl.parse_authenticator_data(b[:t])
+            chk.evals += 1
+            if got != want:
+                chk.violation("a truncating view of authenticator data is parsed differently from the truncated bytes", "authdata-view truncating window",
+                              {"entry": "parse_authenticator_data", "bytes_hex": b.hex(), "cut": t, "as_bytes": want[:160], "as_view": got[:160]})
     # arbitrary bytes
     for i in range(1500 if quick else 30000):
         L = rng.choice([0, 1, 36, 37, 38, 55, 60, 100, 200])
